@@ -548,6 +548,13 @@ func parseResponse(xml []byte, maxSize int64) (*etree.Document, *etree.Element, 
 		return nil, nil, fmt.Errorf("unable to parse response")
 	}
 
+	// An element carrying the same attribute twice is not well-formed XML, and
+	// the readers involved disagree on which of the two counts (the signature
+	// is looked up by the first ID, the decoded message reports the last one).
+	if name := duplicateAttr(el); name != "" {
+		return nil, nil, fmt.Errorf("unable to parse response: attribute %s repeated", name)
+	}
+
 	// Examine the response for attempts to exploit weaknesses in Go's encoding/xml
 	err = rtvalidator.Validate(bytes.NewReader(rawXML))
 	if err != nil {
@@ -618,4 +625,23 @@ func (sp *SAMLServiceProvider) ValidateEncodedLogoutResponsePOST(encodedResponse
 	}
 
 	return decodedResponse, nil
+}
+
+// duplicateAttr returns the name of an attribute that el or one of its
+// descendants carries more than once, or "" if there is none.
+func duplicateAttr(el *etree.Element) string {
+	pending := []*etree.Element{el}
+	for len(pending) > 0 {
+		cur := pending[len(pending)-1]
+		pending = pending[:len(pending)-1]
+		for i, attr := range cur.Attr {
+			for _, earlier := range cur.Attr[:i] {
+				if earlier.Space == attr.Space && earlier.Key == attr.Key {
+					return attr.FullKey()
+				}
+			}
+		}
+		pending = append(pending, cur.ChildElements()...)
+	}
+	return ""
 }
